@@ -303,10 +303,11 @@ struct Acc {
     cyclic_err: u64,
     unexpected_err: u64,
     max_events: u64,
+    simulated: u64,
 }
 impl Acc {
     fn new() -> Self {
-        Acc { all: HashSet::new(), nontrivial: HashSet::new(), runs: 0, ok: 0, err: 0, cyclic_err: 0, unexpected_err: 0, max_events: 0 }
+        Acc { all: HashSet::new(), nontrivial: HashSet::new(), runs: 0, ok: 0, err: 0, cyclic_err: 0, unexpected_err: 0, max_events: 0, simulated: 0 }
     }
 }
 
@@ -317,6 +318,7 @@ fn flush(run: &Run, a: Acc, pre: &str) {
     run.count(&format!("{pre}.ok"), a.ok);
     run.count(&format!("{pre}.err"), a.err);
     run.count(&format!("{pre}.err_on_cyclic_graph"), a.cyclic_err);
+    run.count(&format!("{pre}.runs_compared_with_reference_interpreter"), a.simulated);
     run.count(&format!("{pre}.err_although_reference_sees_no_cycle_or_bad_reference"), a.unexpected_err);
     let k = format!("{pre}.max_callbacks");
     let cur = run.counter(&k);
@@ -363,6 +365,48 @@ fn judge(run: &Run, g: &Graph, font: &[u8], coords: &[f32], cache_ok: bool, deco
         run.violation(
             "ColorGlyph::paint takes more than 2 s of CPU time on a graph of at most 70 nodes",
             &format!("{:.2}s for a graph of {} nodes", dt.as_secs_f64(), g.nodes()),
+            case(),
+        );
+    }
+    // (2a) graphs without PaintGlyph: result and callback stream must equal the reference interpreter's
+    // exactly (so a cycle reported late, a spurious cycle error and an extra lap are all seen)
+    if let Some((exp_result, exp_events)) = simulate(g, cache_ok) {
+        acc.simulated += 1;
+        let got_events: Option<Vec<SimEv>> = p
+            .events
+            .iter()
+            .map(|e| match e {
+                Ev::PushTransform => Some(SimEv::PushTransform),
+                Ev::PopTransform => Some(SimEv::PopTransform),
+                Ev::PushClipBox => Some(SimEv::PushClipBox),
+                Ev::PopClip => Some(SimEv::PopClip),
+                Ev::PushLayer(_) => Some(SimEv::PushLayer),
+                Ev::PopLayer => Some(SimEv::PopLayer),
+                Ev::Fill(_) => Some(SimEv::Fill),
+                Ev::Cached(g) => Some(SimEv::Cached(*g)),
+                _ => None,
+            })
+            .collect();
+        if exp_result.is_ok() != result.is_ok() {
+            let id = match exp_result {
+                Err(SimErr::Cycle) => "ColorGlyph::paint returns Ok on a cyclic paint graph".to_string(),
+                Err(e) => format!("ColorGlyph::paint returns Ok where the reference traversal fails ({e:?})"),
+                Ok(()) => "ColorGlyph::paint reports an error on a paint graph the reference traversal paints".to_string(),
+            };
+            run.violation(&id, &format!("graph {} cache_ok={cache_ok}: got {:?} with callbacks {:?}; reference {:?} with {:?}", g.to_json(), result, p.events, exp_result, exp_events), case());
+        } else if got_events.as_ref() != Some(&exp_events) {
+            run.violation(
+                "ColorGlyph::paint visits different nodes than the reference traversal",
+                &format!("graph {} cache_ok={cache_ok}: result {:?}; callbacks {:?}; reference {:?}", g.to_json(), result, p.events, exp_events),
+                case(),
+            );
+        }
+    }
+    // (2b) the root refers to itself before any other paint id is on the path: always an error
+    if result.is_ok() && g.v0.is_none() && direct_self_reference(&g.bases[0]) {
+        run.violation(
+            "ColorGlyph::paint returns Ok on a cyclic paint graph",
+            &format!("graph {} cache_ok={cache_ok}: glyph 1 refers to itself directly but paint returned Ok with callbacks {:?}", g.to_json(), p.events),
             case(),
         );
     }
